@@ -20,7 +20,7 @@ ID = "C13"
 LEVEL = "model_checking"
 MIN_OUTCOMES = 3
 MANIFEST = {
-    'text': "Complete enumeration of a constructed project table (incl. files that lag behind current_version and files that begin with a UTF-8 BOM) x flag sets x message templates, plus fake-git cases in which a fetch brings newer tags, and every subset of six existing tags around the version about to be created (twins that do not match the pattern, a newer valid tag, junk, a pre-release, the new version itself) x scope x committing on/off: the two-step history (update --dry; update) is executed on the real CLI from the same snapshot; the dry run must not change a byte, and whenever it exits 0 the unified diff it printed - applied by a strict applier that checks file names, line numbers, counts and every context/removed line under the file's own separator - must reproduce exactly the bytes the real run writes, and the real run must exit 0.",
+    'text': "Complete enumeration of a constructed project table (incl. files that lag behind current_version, files that begin with a UTF-8 BOM, and files with FF/control characters, U+2028, NBSP or decomposed text around the version line) x flag sets x message templates, plus fake-git cases in which a fetch brings newer tags, and every subset of six existing tags around the version about to be created (twins that do not match the pattern, a newer valid tag, junk, a pre-release, the new version itself) x scope x committing on/off: the two-step history (update --dry; update) is executed on the real CLI from the same snapshot; the dry run must not change a byte, and whenever it exits 0 the unified diff it printed - applied by a strict applier that checks file names, line numbers, counts and every context/removed line under the file's own separator - must reproduce exactly the bytes the real run writes, and the real run must exit 0.",
     'note': 'mixed line endings are excluded by the property; coloured tty output is not exercised',
     'technique': 'exhaustive enumeration of bounded project x argument space, differential oracle (strict diff applier vs real run) on the real CLI',
 }
